@@ -39,7 +39,7 @@ def run_scenario(args):
     if not os.path.exists(jf + ".out"):
         err += open(os.path.join(d, "driver.log")).read()[-400:]
     r = json.load(open(jf + ".out")) if os.path.exists(jf + ".out") else {"error": err}
-    subprocess.run("pkill -9 -f %s" % d, shell=True)
+    subprocess.run(["pkill", "-9", "-f", d + "/"])      # (the trailing slash keeps sibling directories w1 / w10 apart)
     shutil.rmtree(d, ignore_errors=True)
     return r
 
